@@ -224,6 +224,24 @@ theorem arg_single (s : ArgsShape) (hk : s.kwDefaults = s.kwonly) :
 example : argStarOk ⟨0, 0, true, 0, 0, true, 0⟩ = false ∧ argStarOk ⟨0, 0, true, 0, 0, false, 0⟩ = true
     ∧ argNormalOk ⟨0, 1, false, 0, 0, true, 0⟩ = false := by decide
 
+/-- **The "no parentheses of their own" test of the ImportFrom name parsers is exact.**  The last alias lies inside the wrapper
+statement, so its end is at or before the statement's end; the test passes iff nothing of the statement lies after the
+alias (end positions equal as (line, column) pairs) — in particular a closing parenthesis on a LATER line, at whatever
+column, fails it. -/
+theorem importfrom_no_own_parens (a s : Loc) (hin : posLt s.endLineno s.endCol a.endLineno a.endCol = false) :
+    endsWithStmt a s = true ↔ posLt a.endLineno a.endCol s.endLineno s.endCol = false := by
+  obtain ⟨_, _, al, ac⟩ := a
+  obtain ⟨_, _, sl, sc⟩ := s
+  simp only [posLt, endsWithStmt, Bool.or_eq_false_iff, Bool.and_eq_false_iff, Bool.and_eq_true, decide_eq_false_iff_not,
+    beq_iff_eq, beq_eq_false_iff_ne] at *
+  constructor
+  · rintro ⟨h1, h2⟩; subst h1; subst h2; simp
+  · intro h; omega
+
+/-- `(\nab\n )`: the alias `ab` ends at (3, 2), the statement `from . import \\⏎(⏎ab⏎ )` at (4, 2): same column, later line — refused;
+comparing columns alone would accept it -/
+example : importFromNameOk 1 ⟨3, 0, 3, 2⟩ ⟨1, 0, 4, 2⟩ = false ∧ importFromNameOk 1 ⟨2, 0, 2, 6⟩ ⟨1, 0, 2, 6⟩ = true := by decide
+
 /-! ## location repair of an undelimited sequence (`_fix_undelimited_seq_parsed_delimited`, model `Pfst/SeqFix.lean`) -/
 
 section SeqFix
